@@ -194,6 +194,17 @@ def eval_table_case(case, fail):
             if not diff <= {int(i)}:
                 fail('sample_independent', f'changing variate {int(i)} changed qubits {sorted(diff)}')
                 break
+    # the smallest variate a generator can return: the outcome must be one
+    # of non-zero probability whatever the rate (p = 1 gives no identity,
+    # p = 0 nothing but the identity), also through the end-point rates
+    for rate_ in (p, 1.0, 0.0, 1, 0):
+        w_ = expected_table(code, r, float(rate_), name, kwargs)
+        e = np.asarray(em.generate(code, rate_, rng=StubRNG([0.0])))
+        for i, s in enumerate(bsf_to_letters(e, n)):
+            if w_[s][i] <= 0:
+                fail('sample_support', f'variate 0.0 at rate {rate_!r}: qubit {i} gets {s}, '
+                     f'whose probability is {w_[s][i]}')
+                break
     # endpoints with a real generator
     g = np.random.default_rng(case['rseed'])
     e = np.asarray(em.generate(code, 0.0, rng=g))
